@@ -151,6 +151,31 @@ class Conserve:
             raise AnalysisError('reader functions not reached from read_tex: %s' % ', '.join(missing))
         return self
 
+    def is_manual_peek(self, fd):
+        """a look-ahead written out by hand: the function takes a snapshot of the cursor position first, and winds the
+        cursor back to it by a top-level statement that stands before every return"""
+        ps = fd.params()
+        if not ps:
+            return False
+        cur = ps[0]
+        body = strip_doc(fd.node.body)
+        if not body or not (isinstance(body[0], ast.Assign) and len(body[0].targets) == 1 and isinstance(body[0].targets[0], ast.Name)
+                            and norm(body[0].value) == '%s.position' % cur):
+            return False
+        mark = body[0].targets[0].id
+        if sum(1 for n in ast.walk(fd.node) if isinstance(n, ast.Name) and n.id == mark and isinstance(n.ctx, ast.Store)) != 1:
+            return False
+        back = None
+        for i, st_ in enumerate(body):
+            if isinstance(st_, ast.Expr) and isinstance(st_.value, ast.Call) and norm(st_.value.func) == '%s.backward' % cur \
+                    and st_.value.args and norm(st_.value.args[0]) == '%s.position - %s' % (cur, mark):
+                back = i
+                break
+        if back is None:
+            return False
+        early = [n for st_ in body[:back] for n in ast.walk(st_) if isinstance(n, ast.Return)]
+        return not early
+
     def is_reader(self, fd):
         """takes the token cursor: its first parameter receives .peek/.hasNext/next()..., or is handed on as the
         first argument of a function that does (transitively)"""
@@ -203,7 +228,7 @@ class Conserve:
         self.inprog.add(key)
         self.contexts.add(key)
         it = ConsInterp(self, fd, ctx)
-        it.peekmode = ('#peek', ('const', True)) in ctx
+        it.peekmode = ('#peek', ('const', True)) in ctx or self.is_manual_peek(fd)
         st = RSt()
         params = fd.params()
         cdict = dict(ctx)
@@ -523,7 +548,9 @@ class ConsInterp(Interp):
                 outs.append((v, s1))
                 continue
             t = v[0]
-            if t == 'cursor':
+            if t == 'cursor' and n.attr == 'position':
+                outs.append((('pos', s1.nid), s1))        # a snapshot of the cursor (property read)
+            elif t == 'cursor':
                 outs.append((('cmeth', n.attr), s1))
             elif t == 'res':
                 outs.append((('proj', v[1], '.' + n.attr), s1))
@@ -684,6 +711,28 @@ class ConsInterp(Interp):
                 else:
                     outs.append((('other',), s1))
             return outs
+        # TABLE.get(tok.category): the class selected by the token's kind (which pins that kind), or None
+        if isinstance(f, ast.Attribute) and f.attr == 'get' and isinstance(f.value, ast.Name) and len(n.args) == 1 and not n.keywords:
+            outs = []
+            for base, s0 in self.ev(f.value, st):
+                if isinstance(base, Raised) or base[0] != 'global':
+                    outs = None
+                    break
+                for idx, s1 in self.ev(n.args[0], s0):
+                    if isinstance(idx, Raised):
+                        outs.append((idx, s1))
+                    elif idx[0] == 'proj' and idx[2] == '.category':
+                        s2 = s1.copy()
+                        s2.res[idx[1]].pins = s2.res[idx[1]].pins | {('kind', norm(f.value))}
+                        outs.append((('classval', base[1], idx[1]), s2))
+                        outs.append((('const', None), s1.copy()))
+                    else:
+                        outs = None
+                        break
+                if outs is None:
+                    break
+            if outs is not None:
+                return outs
         outs = []
         argnodes = [a.value if isinstance(a, ast.Starred) else a for a in n.args]
         for fv, s0 in self.ev(f, st):
@@ -752,7 +801,7 @@ class ConsInterp(Interp):
                 return [(('pos', st.nid), st)]
             raise AnalysisError('cursor method %s not modelled in conservation analysis (%s)' % (m, self.where(n)))
         if t == 'func':
-            return self.call_reader(fv[1], n, args, kw, st, peek=False)
+            return self.call_reader(fv[1], n, args, kw, st, peek=self.eng.is_manual_peek(fv[1]))
         if t == 'peekwrap':
             return self.call_reader(fv[1], n, args, kw, st, peek=True)
         if t in ('class', 'classval'):
